@@ -51,19 +51,20 @@ def make_ode(cfg):
     raise ValueError
 
 
-def make_solver(cfg):
+def make_solver(cfg, constraint_init=False):
     import probdiffeq.probdiffeq as pd
 
     ssm = {"dense": pd.state_space_model_dense, "isotropic": pd.state_space_model_isotropic, "blockdiag": pd.state_space_model_blockdiag}[cfg.layout]()
     ode = make_ode(cfg)
     constraint = ssm.constraint_ode_ts0(ode) if cfg.lin == "ts0" else ssm.constraint_ode_ts1(ode)
     strategy = {"filter": pd.strategy_filter, "fixedinterval": pd.strategy_smoother_fixedinterval, "fixedpoint": pd.strategy_smoother_fixedpoint}[cfg.strategy]()
+    kw = {"constraint_init": constraint} if constraint_init else {}
     if cfg.calib == "none":
-        solver = pd.solver(constraint=constraint, strategy=strategy)
+        solver = pd.solver(constraint=constraint, strategy=strategy, **kw)
     elif cfg.calib == "mle":
-        solver = pd.solver_mle(constraint=constraint, strategy=strategy)
+        solver = pd.solver_mle(constraint=constraint, strategy=strategy, **kw)
     else:
-        solver = pd.solver_dynamic(constraint=constraint, strategy=strategy, re_linearize_after_calibration=cfg.relin)
+        solver = pd.solver_dynamic(constraint=constraint, strategy=strategy, re_linearize_after_calibration=cfg.relin, **kw)
     return ssm, ode, constraint, strategy, solver
 
 
